@@ -51,7 +51,7 @@ SPEC = {
     "oracle": oracle,
     "corpus_opts": {"Assemble": True},
     "stages": [("D", lambda c, o, rng: S.stageD_case(o, rng), S.stageD_v, 2, None),
-               ("H", lambda c, o, rng: S.stageD_case(o, rng, nsample=0), S.stageH_v, 2, 24)],
+               ("H", lambda c, o, rng: S.stageD_case(o, rng, nsample=0), S.stageH_v, 2, 14)],
     "nontrivial": lambda c, o: len(o["Bars"]) >= 2 and any((b.get("DL") or b.get("CL")) for b in o["Bars"]),
     "rule": "twin pinned members between the same two free joints; definitions with a node no bar uses; joints where 2-4 bars (as start or end node, in any order) bring nodal and end-of-span loads to the same equations, and grid frames with all support and link kinds; own weight on every third; "
             "non-trivial iff >= 2 bars and some load; MakeSystemOfEquations is compared entry by entry with an independent exact re-assembly from the implementation's own slices (oracle) and with the Coq model (stage D)",
